@@ -126,6 +126,12 @@ add("C21", EX, "Exhaustive small-scope enumeration of every chunking x index (al
     "bounded exhaustive differential enumeration (all chunkings x index alphabets x value kinds) against NumPy")
 add("C23", EX, "Every chunk spec, limit, dtype and previous_chunks of a small scope goes through the real normalize_chunks/auto_chunks, and every source/target chunking pair goes through the real rechunk/plan_rechunk, including forced multi-stage plans, zero-length chunks and spec targets; the statement's invariants, exact chunks and unchanged values are judged on each element.", "5/C23", ARR_NOTE + " array.chunk-size-tolerance is treated as documented configuration (auto blocks may exceed the limit by that factor when previous_chunks are given).",
     "bounded exhaustive enumeration of chunk specs and chunking pairs with invariant and NumPy-equality oracles")
+add("C36", EX, "Every program of <= 2 (thorough 3) row-wise steps over a typed alphabet of ~80 frame and 40-60 per-kind series operations (projection, filters, assign, arithmetic/comparison with scalars and aligned series/frames, astype, fillna, where/mask, isin, clip, map/apply, rename, str/dt/cat accessors), on 6 frames x all small partitionings (with empty partitions) x 5 index kinds x known/unknown divisions, executed on the real engine and compared exactly (values, dtypes, index, order) with the same program on pandas; failing programs are delta-debugged and keyed by the responsible operation.", "5/C36", DF_NOTE,
+    "bounded exhaustive typed-program enumeration against pandas")
+add("C42", EX, "Every 1- and 2-step program over the union of the row-wise, reduction, groupby, join, sort/shuffle and window alphabets on 6 frames x up to 8 partitioning/division configurations is built lazily; its ._meta is compared (type, columns, dtypes, names, index dtype) with the computed result and with each separately computed partition; disagreements are keyed by operation and exact dtype pair.", "5/C42", DF_NOTE,
+    "bounded exhaustive program enumeration, lazy metadata vs computed whole and per-partition objects")
+add("C43", MC, "Every program of <= 3 (thorough 3-4) steps over an alphabet built to trigger projection/filter pushdown, assign merging, filter rewriting and fusion (shared sub-expressions, shadowing assigns, reductions inside predicates) is optimized under a watchdog (non-termination / 'does not converge' are violations); baseline (lowered-only), optimized and re-optimized expressions are executed without implicit optimisation and compared with pandas; the first wrong optimizer stage and a delta-debugged minimal program name each finding.", "5/C43", DF_NOTE,
+    "bounded exhaustive DAG-program enumeration with stage-wise materialisation of the optimizer pipeline")
 
 
 def build():
